@@ -181,7 +181,8 @@ def misc():
 
 def tasks(tier):
     return [('contracts.c11', 'appends', ()), ('contracts.c11', 'pops', ()), ('contracts.c11', 'misc', ()),
-            ('contracts.c11', 'index_task', ())]
+            ('contracts.c11', 'index_task', ()),
+            ('contracts.iteration', 'iterkeys_task', ('C11', False)), ('contracts.iteration', 'iterkeys_task', ('C11', True))]
 
 
 def meta(results, tier):
